@@ -480,6 +480,8 @@ class SoftwareSwitchBase (object):
       err.xid = 0
     if data is not None:
       err.data = data
+    # Quote as much of the request as still fits into one message
+    err.data = err.data[:0xffff - 12]
     self.send(err, connection = connection)
 
   def rx_packet (self, packet, in_port, packet_data = None):
